@@ -331,6 +331,29 @@ Section Output.
   Definition render (its : list (okey * list T)) : list T := into_stream (add_items its).
 End Output.
 
+
+(* ------------------------------------------------------------------ *)
+(* lib.rs:930-982 to_stream: which add_item calls arrive in which order *)
+(* ------------------------------------------------------------------ *)
+Section ToStream.
+  Variable T : Type.
+  Variable wrap : omod -> list T -> list T.
+  (* id_to_entry : BTreeMap<TypeId, TypeEntry>; an entry is abstracted to the add_item calls its
+     `output` makes (type item, impls, builder, default fns: under keys derived from NAMES) *)
+  Definition id_entry := (nat * list (okey * list T))%type.
+  (* the table after any history of `id_to_entry.insert(id, entry)` *)
+  Definition id_table_of (hist : list id_entry) : list id_entry :=
+    sm_of_list nat Nat.compare (list (okey * list T)) hist.
+  (* to_stream: the error item, then every entry in TABLE ITERATION order, then the shared defaults *)
+  Definition to_stream_items (pre post : list (okey * list T)) (tbl : list id_entry) : list (okey * list T) :=
+    pre ++ flat_map snd tbl ++ post.
+  Definition to_stream (pre post : list (okey * list T)) (hist : list id_entry) : list T :=
+    render T wrap (to_stream_items pre post (id_table_of hist)).
+  (* what a HASH-ordered id table would do: iterate some enumeration of the same entries *)
+  Definition to_stream_enumerated (pre post : list (okey * list T)) (enum : list id_entry) : list T :=
+    render T wrap (to_stream_items pre post enum).
+End ToStream.
+
 (* ------------------------------------------------------------------ *)
 (* printing for the correspondence check                               *)
 (* ------------------------------------------------------------------ *)
